@@ -5,7 +5,7 @@ import common
 from common import qlit
 
 PRE = ('From Coq Require Import QArith List Bool.\n'
-       'Require Import WV.model.C10Distribute WV.model.C10Layout WV.model.C10Grid WV.model.C10Borders.\n'
+       'Require Import WV.model.C10Distribute WV.model.C10Layout WV.model.C10Grid WV.model.C10Borders WV.model.C10Preferred.\n'
        'Import ListNotations.\nOpen Scope Q_scope.\n')
 
 
@@ -277,6 +277,126 @@ def direct_stream(run, name, fn, cases, to_coq, case_type, judge, keyf, rule, sk
     run.stream_info(name, rule=rule, skipped_near_float_threshold=skipped, raised=raised)
 
 
+# ------------------------------------------------------------------------------ stream 4: preferred widths direct
+
+SPACINGS = [('0', '0'), ('2', '30'), ('30', '2'), ('1', '100'), ('100', '1'), ('5', '5'), ('3', '0'), ('0', '7'), ('7/2', '40')]
+PROFILES = ['auto', 'constrained', 'percentage', 'mixed']
+
+
+def gen_pref(rng, n):
+    """stub tables for table_and_columns_preferred_widths: a first row of span-1 cells in every column (kind of the
+    columns per profile: auto / all constrained (px) / percentage / mixed), then rows tiled with colspan cells
+    starting in EVERY column position, most of them wider than the columns they span; two-value border-spacing."""
+    cases = []
+    pos = 0
+    while len(cases) < n:
+        ncols = rng.choice([2, 3, 3, 4, 5, 6])
+        h, v = SPACINGS[len(cases) % len(SPACINGS)]
+        profile = PROFILES[(len(cases) // len(SPACINGS)) % len(PROFILES)]
+        collapse = rng.random() < 0.12
+
+        def width_decl(kind):
+            if kind == 'constrained':
+                return ['px', rq(rng, 5, 60)]
+            if kind == 'percentage':
+                return ['%', rq(rng, 5, 45)]
+            return 'auto'
+        kinds = [profile if profile != 'mixed' else rng.choice(['auto', 'constrained', 'percentage']) for _ in range(ncols)]
+        first = []
+        for i in range(ncols):
+            mn = Fraction(rq(rng, 0, 40)) if rng.random() < 0.9 else Fraction(0)
+            mx = mn + (Fraction(rq(rng, 0, 80)) if rng.random() < 0.7 else 0)
+            first.append(dict(gx=i, span=1, cmin=str(mn), cmax=str(mx), width=width_decl(kinds[i])))
+        rows = [first]
+        # colspan cells: one row per starting position (cycled), plus random tilings
+        for r in range(rng.choice([1, 2, 3])):
+            row, x = [], 0
+            start = pos % (ncols - 1)
+            pos += 1
+            while x < ncols:
+                if x == start or (x > start and rng.random() < 0.3 and x < ncols - 1):
+                    span = rng.randint(2, min(ncols - x, 4)) if ncols - x >= 2 else 1
+                else:
+                    span = 1
+                if span == 1:
+                    mn = Fraction(rq(rng, 0, 30))
+                    mx = mn + Fraction(rq(rng, 0, 30))
+                    row.append(dict(gx=x, span=1, cmin=str(mn), cmax=str(mx), width=width_decl(kinds[x]) if rng.random() < 0.3 else 'auto'))
+                else:
+                    big = rng.random() < 0.75
+                    mn = Fraction(rq(rng, 150, 400)) if big else Fraction(rq(rng, 0, 40))
+                    mx = mn + (Fraction(rq(rng, 0, 200)) if rng.random() < 0.6 else 0)
+                    row.append(dict(gx=x, span=span, cmin=str(mn), cmax=str(mx),
+                                    width=['px', rq(rng, 10, 90)] if rng.random() < 0.15 else 'auto'))
+                x += span
+            rows.append(row)
+        cols, group = [], None
+        if rng.random() < 0.3:
+            cols = [width_decl(rng.choice(['auto', 'constrained', 'percentage'])) for _ in range(rng.randint(1, ncols))]
+            if rng.random() < 0.4:
+                group = width_decl(rng.choice(['auto', 'constrained']))
+        cases.append(dict(h=h, v=v, collapse=collapse, group=group, cols=cols, rows=rows, ncols=ncols, profile=profile))
+    return cases
+
+
+def pref_inputs(c):
+    """(h used, per column contributions, colspan cells in the order of the source) from a direct case."""
+    n = c['ncols']
+    h = Fraction(0) if c['collapse'] else Fraction(c['h'])
+
+    def of_decl(d):
+        px = d != 'auto' and d[0] == 'px'
+        val = Fraction(d[1]) if px else Fraction(0)
+        pct = Fraction(d[1]) if (d != 'auto' and d[0] == '%') else Fraction(0)
+        return [val, val, pct, px]
+    columns = [[] for _ in range(n)]
+    for i, d in enumerate(c['cols'][:n]):
+        if c['group'] is not None:
+            columns[i].append(of_decl(c['group']))
+        columns[i].append(of_decl(d))
+    spans = []
+    for i in range(n):
+        for row in c['rows']:
+            for cell in row:
+                if cell['gx'] != i:
+                    continue
+                d = cell['width']
+                if cell['span'] == 1:
+                    columns[i].append([Fraction(cell['cmin']), Fraction(cell['cmax']),
+                                       Fraction(d[1]) if (d != 'auto' and d[0] == '%') else Fraction(0),
+                                       d != 'auto' and d[0] == 'px'])
+                else:
+                    spans.append([cell['gx'], cell['span'], Fraction(cell['cmin']), Fraction(cell['cmax'])])
+    return h, columns, spans
+
+
+def coq_pref(h, columns, spans, out):
+    cols = '; '.join('[%s]' % '; '.join('(mkcontrib %s %s %s %s)' % (qlit(Fraction(k[0])), qlit(Fraction(k[1])), qlit(Fraction(k[2])), blit(k[3]))
+                                         for k in col) for col in columns)
+    cells = '; '.join('(mkscell %d%%nat %d%%nat %s %s)' % (s[0], s[1], qlit(Fraction(s[2])), qlit(Fraction(s[3]))) for s in spans)
+    if out is None:
+        o = '([], [], [], [])'
+    else:
+        o = '(%s, %s, %s, [%s])' % (qlist(out[0]), qlist(out[1]), qlist(out[2]), '; '.join(blit(b) for b in out[3]))
+    return '(%s, [%s], [%s], %s)' % (qlit(Fraction(h)), cols, cells, o)
+
+
+def coq_pref_case(c, out):
+    h, columns, spans = pref_inputs(c)
+    return coq_pref(h, columns, spans, out)
+
+
+def pref_key(c):
+    """(profile, positions and spans of the colspan cells, orientation of the two-value spacing, group of
+    distribute_excess_width taken by the first colspan cell that needs room)."""
+    h, columns, spans = pref_inputs(c)
+    hv = 'h<v' if Fraction(c['h']) < Fraction(c['v']) else 'h>v' if Fraction(c['h']) > Fraction(c['v']) else 'h=v'
+    return (c['profile'], tuple((s[0], s[1]) for s in spans), hv, c['collapse'])
+
+
+PREF_T = 'pref_case'
+
+
 # ------------------------------------------------------------------------------ generated tables (renders)
 
 WORDS = ['a', 'bb', 'ccc', 'dddd', 'eeeee', 'abcdefgh', 'aaaaaaaaaaaa', 'hhhhhhhhhhhhhhhhhhhh']
@@ -431,15 +551,86 @@ def gen_table(rng, tid, mode, thorough):
     return '<table id=%s style="%s">%s%s</table>' % (tid, ';'.join(tst), cap, ''.join(html)), meta
 
 
-def gen_doc(rng, mode, thorough):
+LONG = ['abcdefghabcdefgh', 'aaaaaaaaaaaaaaaaaaaaaaaa', 'hhhhhhhhhhhh', 'abcdefghabcdefghabcdefghabcdefgh', 'gggggggggggggggggg']
+
+
+def gen_colspan_table(rng, tid, serial):
+    """auto layout, separated borders with a two-value border-spacing (horizontal != vertical, both orders), columns
+    all constrained / percentage / auto / mixed, and colspan cells starting in every column position whose single
+    unbreakable word is wider than the columns they span; ltr and rtl."""
+    colors = Colors()
+    ncols = rng.choice([2, 3, 3, 4, 5])
+    h, v = rng.choice([(2, 30), (30, 2), (1, 40), (40, 1), (0, 25), (25, 0), (3, 3), (7, 50)])
+    profile = PROFILES[serial % len(PROFILES)]
+    rtl = (serial // len(PROFILES)) % 2 == 1
+    kinds = [profile if profile != 'mixed' else rng.choice(['auto', 'constrained', 'percentage']) for _ in range(ncols)]
+    meta = dict(tid=tid, ncols=ncols, collapse=False, fixed=False, rtl=rtl, head=[], foot=[], body=[], multiline=True, cells={},
+                profile=profile, span_positions=[])
+    rows_html = []
+
+    def cell(row_id, ci, text, span, style):
+        cid = '%sc%d' % (row_id, ci)
+        meta['cells'][cid] = text
+        return '<td id=%s%s style="%s">%s</td>' % (cid, ' colspan=%d' % span if span > 1 else '', ';'.join(style), text)
+
+    def kind_style(k):
+        if k == 'constrained':
+            return ['width:%dpx' % rng.choice([10, 20, 35, 60])]
+        if k == 'percentage':
+            return ['width:%d%%' % rng.choice([10, 20, 30])]
+        return []
+    # first row: one cell per column
+    rid = '%sr1' % tid
+    meta['body'].append(rid)
+    rows_html.append('<tr id=%s>%s</tr>' % (rid, ''.join(
+        cell(rid, i + 1, rng.choice(['a', 'bb', 'a a a', 'ccc dddd', 'abcdefgh']), 1,
+             ['padding:0 %dpx' % rng.choice([0, 0, 1, 3])] + kind_style(kinds[i])) for i in range(ncols))))
+    nrows = rng.choice([1, 2, 3])
+    for r in range(nrows):
+        rid = '%sr%d' % (tid, r + 2)
+        meta['body'].append(rid)
+        start = (serial + r) % (ncols - 1)
+        x, ci, cells = 0, 0, []
+        while x < ncols:
+            if x == start or (x > start and x < ncols - 1 and rng.random() < 0.3):
+                span = rng.randint(2, min(ncols - x, 3))
+            else:
+                span = 1
+            ci += 1
+            if span > 1:
+                text = rng.choice(LONG) if rng.random() < 0.8 else 'a bb'
+                meta['span_positions'].append((x, span, ncols))
+                st = ['padding:0 %dpx' % rng.choice([0, 0, 2])] + rand_border(rng, colors, 0.2, False)
+            else:
+                text = rng.choice(['a', 'bb', 'ccc', 'a bb'])
+                st = ['padding:0'] + (kind_style(kinds[x]) if rng.random() < 0.3 else [])
+            cells.append(cell(rid, ci, text, span, st))
+            x += span
+        rows_html.append('<tr id=%s>%s</tr>' % (rid, ''.join(cells)))
+    tst = ['border-collapse:separate', 'border-spacing:%dpx %dpx' % (h, v)]
+    if rtl:
+        tst.append('direction:rtl')
+    r = rng.random()
+    if r < 0.2:
+        tst.append('width:%s' % rng.choice(['100%', '150px', '60%']))
+    if rng.random() < 0.3:
+        tst.append('padding:%dpx' % rng.choice([1, 4]))
+    tst += rand_border(rng, colors, 0.3, False)
+    return '<table id=%s style="%s">%s</table>' % (tid, ';'.join(tst), ''.join(rows_html)), meta
+
+
+def gen_doc(rng, mode, thorough, serial=0):
     width = rng.choice([120, 200, 300, 450, 700])
     if mode == 'split':
         height = rng.choice([60, 90, 130, 200, 320])
     else:
         height = 200000
     tables, metas = [], {}
-    for t in range(1 if mode == 'split' else rng.choice([1, 1, 2])):
-        h, m = gen_table(rng, 't%d' % t, mode, thorough)
+    for t in range(1 if mode in ('split', 'colspan') else rng.choice([1, 1, 2])):
+        if mode == 'colspan':
+            h, m = gen_colspan_table(rng, 't%d' % t, serial)
+        else:
+            h, m = gen_table(rng, 't%d' % t, mode, thorough)
         tables.append(h)
         metas[m['tid']] = m
     before = '<p>aaa bbb</p>' if rng.random() < 0.5 else ''
@@ -535,7 +726,7 @@ def monitor_fragment(t, meta, orig_cols, records, first_page):
     if wc == 'mirrored' and t['rtl']:
         # reported finding: second table_layout of the same rtl table (after `column_widths.reverse()`) lays the
         # cells out with mirrored column widths; everything else on this fragment is a consequence
-        return [('column-widths-as-computed[rtl-mirrored-on-relayout]', (t['page'], t['ws']))]
+        return [('column-widths-as-computed', (t['page'], 'mirrored', t['ws']))]
     if wc:
         bad.append(('column-widths-as-computed', (t['page'], t['ws'])))
     if n and abs(spacing_excess(t)) > PEPS * max(1, fl(t['W'])):
@@ -633,7 +824,7 @@ def monitor_split(tabs, meta, page_h):
                 texts.setdefault(c['cid'], []).append(c['text'])
     for cid, parts in texts.items():
         if cid in meta['cells'] and ''.join(parts).replace(' ', '') != meta['cells'][cid].replace(' ', ''):
-            bad.append(('cell-content-once' + ('[restart-after-empty-fragment]' if restart_pattern(parts, meta['cells'][cid]) else ''),
+            bad.append(('cell-content-once',
                         (cid, parts, meta['cells'][cid])))
     hs = [fl(g['h']) for t, hdr, ftr, body in frag_info for g in hdr]
     fs = [fl(g['h']) for t, hdr, ftr, body in frag_info for g in ftr]
@@ -687,8 +878,8 @@ def render_streams(run, specs, rng, thorough):
     record; results are accounted per stream."""
     docs = []
     for name, mode, ndocs in specs:
-        for _ in range(ndocs):
-            d = gen_doc(rng, mode, thorough)
+        for k in range(ndocs):
+            d = gen_doc(rng, mode, thorough, serial=k)
             d['stream'] = name
             docs.append(d)
     judge_docs(run, specs, docs, thorough)
@@ -696,7 +887,7 @@ def render_streams(run, specs, rng, thorough):
 
 def judge_docs(run, specs, docs, thorough, need_all=True):
     outs = common.run_impl('impl_c10', 'render', [{'html': d['html']} for d in docs], limit=120, chunksize=2)
-    cases = {'auto': [], 'fixed': [], 'grid': [], 'borders': []}
+    cases = {'auto': [], 'fixed': [], 'grid': [], 'borders': [], 'pref': []}
     stats = {name: dict(documents=0, tables=0, fragments=0, pages=0, auto_calls=0, fixed_calls=0, border_grids=0,
                         skipped_records=0, split_tables=0, keys=set(), tally={}, oracle_bad=0, cont_rows=0)
              for name, _, _ in specs}
@@ -730,6 +921,14 @@ def judge_docs(run, specs, docs, thorough, need_all=True):
         for r in o['borders']:
             cases['borders'].append((di, r, coq_borders_case(r)))
             S['border_grids'] += 1
+        for r in o.get('pref', []):
+            if 'hook_error' in r or has_bad(r) or r['unmodelled']:
+                S['skipped_records'] += 1
+                continue
+            cases['pref'].append((di, r, coq_pref(r['h'], r['columns'], r['spans'], r['out'])))
+            S['pref_records'] = S.get('pref_records', 0) + 1
+            if r['spans']:
+                S['pref_with_colspan'] = S.get('pref_with_colspan', 0) + 1
         by_tid, orig, first_page = {}, {}, {}
         for t in o['tables']:
             orig.setdefault(t['tid'], set()).update(c['gx'] for g in t['groups'] for r in g['rows'] for c in r['cells'])
@@ -771,7 +970,9 @@ def judge_docs(run, specs, docs, thorough, need_all=True):
     for tag, ty, judge, what in (('auto', AUTO_T, 'auto_judge_r', 'auto_table_layout (recorded call)'),
                                  ('fixed', FIXED_T, 'fixed_judge_r', 'fixed_table_layout (recorded call)'),
                                  ('grid', GRID_T, 'grid_judge', 'column positions and cell extents'),
-                                 ('borders', BORD_T, 'borders_judge', 'collapsed_border_grid')):
+                                 ('borders', BORD_T, 'borders_judge', 'collapsed_border_grid'),
+                                 ('pref', PREF_T, 'pref_judge_r', 'column part of table_and_columns_preferred_widths, inputs = '
+                                  'content widths of the individual cells')):
         cs = cases[tag]
         if not cs:
             if need_all:
@@ -820,12 +1021,68 @@ def judge_docs(run, specs, docs, thorough, need_all=True):
                         tables=S['tables'], fragments=S['fragments'], pages=S['pages'], split_tables=S['split_tables'],
                         auto_calls=S['auto_calls'], fixed_calls=S['fixed_calls'], border_grids=S['border_grids'],
                         skipped_records=S['skipped_records'], oracle_hypotheses_violated=S['oracle_bad'],
+                        pref_records=S.get('pref_records', 0), pref_records_with_colspan=S.get('pref_with_colspan', 0),
                         open_findings=S['tally'])
 
 
 DIST_T = 'nat * nat * Q * list col * option (list Q)'
 FIXED_T = 'Q * Q * list decl * list fcell * option (Q * list Q)'
 AUTO_T = 'option Q * (Q * Q * Q * Q) * list acol * option (Q * list Q)'
+
+
+def pref_stream(run, cases):
+    """direct calls of table_and_columns_preferred_widths on stub tables (exact rationals)."""
+    name = 'pref-direct'
+    outs = common.run_impl('impl_c10', 'pref', cases)
+    coq_cases, kept = [], []
+    for c, (st, o) in zip(cases, outs):
+        if st == 'timeout':
+            run.fail('pref timeout', {'stream': name, 'case': c}, signature='timeout')
+            continue
+        coq_cases.append(coq_pref_case(c, o if st == 'ok' else None))
+        kept.append((c, o if st == 'ok' else None, o if st != 'ok' else None))
+    try:
+        masks = common.eval_cases('c10pref', PRE, PREF_T, coq_cases, 'pref_judge',
+                                  per_file=max(25, len(coq_cases) // common.NCPU + 1))
+    except RuntimeError as exc:
+        run.oblige('corr:' + name, False, str(exc))
+        return
+    mism = [(c, o) for (c, o, _), m in zip(kept, masks) if m & 1]
+    run.oblige('corr:pref-direct(model vs CPython, exact rationals: column part of table_and_columns_preferred_widths)',
+               not mism, 'first disagreements: %s' % json.dumps(mism[:2])[:3000])
+    nfail = 0
+    for (c, o, exc), m in zip(kept, masks):
+        what = None
+        if o is None:
+            what = 'table_and_columns_preferred_widths raised %s' % (exc,)
+        elif m & 2:
+            what = 'a colspan cell does not fit in the columns it spans plus the horizontal spacings between them'
+        else:
+            # table min-content width = columns + (n+1) horizontal spacings (every column has an originating cell here)
+            h = Fraction(0) if c['collapse'] else Fraction(c['h'])
+            mins, ths, tmin = [Fraction(x) for x in o[0]], Fraction(o[4]), Fraction(o[5])
+            if ths != h * (len(mins) + 1) or tmin != sum(mins) + ths:
+                what = 'table min-content width %s is not columns %s + (n+1) x horizontal spacing %s' % (tmin, sum(mins), h)
+        if what and nfail < 2:
+            nfail += 1
+            run.fail('pref-direct: ' + what, {'stream': name, 'case': c, 'impl_output': o}, signature='pref-spec')
+    run.count(name, len(kept), [pref_key(c) for c, _, _ in kept], samples=[{'case': kept[0][0], 'impl': kept[0][1]}])
+    # colspan cells must start in column 0 and in later columns, for every column profile and both spacing orders
+    seen = set()
+    for c, _, _ in kept:
+        hv = 'h<v' if Fraction(c['h']) < Fraction(c['v']) else 'h>v' if Fraction(c['h']) > Fraction(c['v']) else 'h=v'
+        for row in c['rows']:
+            for cell in row:
+                if cell['span'] > 1 and Fraction(cell['cmin']) >= 150:
+                    seen.add((c['profile'], cell['gx'] > 0, hv))
+    want = [(pr, off, hv) for pr in PROFILES for off in (False, True) for hv in ('h<v', 'h>v')]
+    missing = [w for w in want if w not in seen]
+    run.oblige('coverage:pref-direct wide colspan cells at grid_x = 0 and > 0, every column profile, both spacing orders',
+               not missing, 'missing: %s' % missing)
+    run.stream_info(name, rule='stub tables: first row of span-1 cells (profiles auto / all constrained / percentage / mixed), rows of '
+                    'colspan cells starting in every column position (75%% wider than their columns), col/colgroup elements, '
+                    'two-value border-spacing from %s, 12%% collapsing; distinct = (profile, (grid_x, span) of the colspan cells, '
+                    'spacing order, collapse)' % (SPACINGS,), combinations=len(seen))
 
 
 def corpus_stage(run):
@@ -847,7 +1104,8 @@ def corpus_stage(run):
 def check(run):
     rng = random.Random(run.seed * 7919 + 10)
     thorough = run.tier == 'thorough'
-    common.prove(run, 'C10', ['model/C10Distribute.vo', 'model/C10Layout.vo', 'model/C10Grid.vo', 'model/C10Borders.vo'])
+    common.prove(run, 'C10', ['model/C10Distribute.vo', 'model/C10Layout.vo', 'model/C10Grid.vo', 'model/C10Borders.vo',
+                              'model/C10Preferred.vo'])
     run.trusted += ['Coq 8.16.1 kernel (coqc); vm_compute for the cases.v evaluation',
                     'hand-written Gallina models of distribute_excess_width, fixed_table_layout, auto_table_layout, '
                     'column positions / cell extents and the border conflict fold: tied to /repo by the correspondence streams of every run',
@@ -869,9 +1127,14 @@ def check(run):
                   'stub context with an injected oracle: 0..6 columns, min<=max (10% deliberately insane), percentages, '
                   'constrained flags; table width below min / between guesses / exactly at a guess / above max',
                   skip=auto_near_threshold)
+    pref_stream(run, gen_pref(rng, 720 * n))
     corpus_stage(run)
-    render_streams(run, [('render-layout', 'layout', 100 * n), ('render-borders', 'borders', 70 * n),
-                         ('render-split', 'split', 32 * n)], rng, thorough)
+    render_streams(run, [('render-layout', 'layout', 90 * n), ('render-borders', 'borders', 60 * n),
+                         ('render-split', 'split', 30 * n), ('render-colspan', 'colspan', 64 * n)], rng, thorough)
+    # every group of distribute_excess_width must have been exercised with a slice that does not start at 0
+    groups = set((k[1][0], k[1][2] > 0) for k in run.distinct if k[0] == 'dist-direct')
+    missing = [g for g in (1, 2, 3, 4, 5) if (g, True) not in groups]
+    run.oblige('coverage:dist-direct every group taken with slice start > 0', not missing, 'groups never taken with start > 0: %s' % missing)
 
 
 def replay(data):
